@@ -495,6 +495,13 @@ def embeds():
     return P
 
 
+def same_typed():
+    P = {}
+    P['same3'] = Program('same3', [leaf('A', 'int64', tag='a'), leaf('B', 'int64', tag='b'), leaf('C', 'int64', tag='c')])
+    P['same3opt'] = Program('same3opt', [leaf('A', 'int64', 'opt', tag='a'), leaf('B', 'int64', 'opt', tag='b'), leaf('C', 'int64', 'opt', tag='c')])
+    return P
+
+
 def nested_specials():
     """Shapes the C02 quantifier names explicitly."""
     P = {}
